@@ -154,6 +154,12 @@ func ValidateCounterpartyID(id string, protocol ProtocolID) error {
 		return errors.New("counterparty ID cannot be empty string")
 	}
 
+	// The counterparty ID is part of composite store keys where the null
+	// character terminates a string: an ID containing it cannot be stored.
+	if strings.ContainsRune(id, 0) {
+		return errors.New("counterparty ID cannot contain the null character")
+	}
+
 	if len(id) > MaxCounterpartyIDLength {
 		return fmt.Errorf(
 			"counterparty ID cannot contain more than %d characters",
